@@ -271,7 +271,7 @@ def judge(w, tap, ctx, scenario, reach):
 
 
 def run(scenario):
-    ctx = {'expires': [], 'spi_pairs': {}}
+    ctx = {'expires': [], 'spi_pairs': {}, 'reach': {}}
 
     def setup(w, ctx):
         ctx['wire'] = WireLog(w)
@@ -295,6 +295,15 @@ def run(scenario):
             kernel executed for an SA that the daemon goes on tracking as part of a CHILD_SA removed something else than what was meant."""
             def __init__(self):
                 self.idx = {}
+                self.pairs = {}
+
+            def before_step(self, node, cause):
+                # the CHILD_SAs this endpoint tracked (both halves installed) before the step
+                m = self.pairs.setdefault(node.name, {})
+                for sa in node.ike_sas():
+                    for c in sa.child_sas:
+                        m[bytes(c.inbound_spi)] = bytes(c.outbound_spi)
+                        m[bytes(c.outbound_spi)] = bytes(c.inbound_spi)
 
             def after_step(self, node, cause):
                 reqs = node.kernel.requests
@@ -302,6 +311,19 @@ def run(scenario):
                 self.idx[node.name] = len(reqs)
                 if node.state != 'running' or node.exited or w.poisoned:
                     return
+                # removing a CHILD_SA means removing both of its SAs: whatever the kernel answers to the first DELSA, the second is sent
+                dels = [r_['decoded']['id']['spi'] for r_ in reqs[i:] if r_.get('decoded') and r_['decoded'].get('kind') == 'delsa']
+                for spi_ in (dels if not scenario.get('byz') else []):          # (a peer re-using SPIs makes the pairing ambiguous)
+                    other = self.pairs.get(node.name, {}).get(bytes(spi_))
+                    if other is not None:
+                        ctx['reach']['delsa_pairs_checked'] = ctx['reach'].get('delsa_pairs_checked', 0) + 1
+                        if other not in dels:
+                            errs = [(r_['decoded']['id']['spi'].hex(), r_['errno']) for r_ in reqs[i:] if r_.get('decoded') and r_['decoded'].get('kind') == 'delsa']
+                            w.violation(PROP, 'delsa_for_one_half_of_a_child_sa_only', {'errno': next((e for s_, e in errs if e), 0)},
+                                        f'{node.name}: DELSA for SPI {bytes(spi_).hex()} of CHILD_SA {bytes(spi_).hex()}/{other.hex()} but none for {other.hex()} in the '
+                                        f'same step (DELSA requests and kernel answers: {errs})')
+                            w.poisoned = True
+                            return
                 for r_ in reqs[i:]:
                     d = r_.get('decoded')
                     if not d or d.get('kind') != 'delsa' or r_['errno'] or r_.get('injected'):
@@ -330,7 +352,7 @@ def run(scenario):
             ip.rules.append(rule)
 
     def at_end(w, ctx):
-        ctx['reach'] = dict(ctx.get('byz_reach', {}))
+        ctx['reach'].update(ctx.get('byz_reach', {}))
         judge(w, ctx['tap'], ctx, scenario, ctx['reach'])
     ctx['at_end'] = at_end
     w = execute(scenario, setup, ctx)
